@@ -68,7 +68,7 @@ func tableLookups(fn *ssa.Function) []tableLookup {
 			}
 			if g, ok := x.X.(*ssa.Global); ok {
 				if arr, ok := g.Type().Underlying().(*types.Pointer).Elem().Underlying().(*types.Array); ok {
-					out = append(out, tableLookup{in, x.Index, arr.Len(), "array " + g.Name()})
+					out = append(out, tableLookup{in, x.Index, arr.Len(), "array " + N(g)})
 				}
 			}
 		case *ssa.Index:
@@ -157,7 +157,7 @@ func runC04(c *Ctx) {
 	var tableName string
 	for _, tl := range tableLookups(fromRPC) {
 		if g, ok := tl.in.(*ssa.IndexAddr).X.(*ssa.Global); ok {
-			tableName = g.Name()
+			tableName = N(g)
 		}
 	}
 	if tableName == "" {
@@ -461,7 +461,7 @@ func runC04(c *Ctx) {
 		fatalf("anchor=ishex/unhex not found")
 	}
 	// the constant alphabet used for encoding
-	if obj, ok := p.Root.Pkg.Scope().Lookup("upperhex").(*types.Const); ok {
+	if obj, ok := p.Lookup("upperhex").(*types.Const); ok {
 		c.Check(constant.StringVal(obj.Val()) == "0123456789ABCDEF", "C04.5", "upperhex", "alphabet", obj.Pos(),
 			"encoding alphabet is 0123456789ABCDEF", "encoding alphabet is not the upper-case hex alphabet")
 	} else {
